@@ -10,9 +10,9 @@ pub fn run_pass(device: &mut Device) -> anyhow::Result<()> {
     let mut cfg_stack = vec![Cfg::new(None)];
 
     recurse_objects_with_depth_mut(&mut device.objects, &mut |object, depth| {
-        if depth < current_depth {
+        while depth < current_depth {
             cfg_stack.pop();
-            current_depth = depth;
+            current_depth -= 1;
         }
 
         let cfg_attr = object.cfg_attr_mut();
